@@ -1,6 +1,8 @@
 package core
 
 import (
+	simrt "verif/sim/rt"
+
 	"encoding/json"
 	"flag"
 	"fmt"
@@ -31,6 +33,7 @@ func WorkerMain(hs map[string]Harness) {
 	shrinkList := flag.String("shrinklist", "", "replay file: write one candidate replay file per smaller scenario into -out")
 	normalise := flag.String("normalise", "", "replay file: re-execute it and write the exact decision logs of that execution to -outfile")
 	outFile := flag.String("outfile", "", "output file for -normalise")
+	mkrange := flag.String("mkrange", "", "violation signature: write a range replay file for runs -from..-to to -outfile")
 	progress := flag.String("progress", "", "file receiving the index of the run in flight")
 	dumprun := flag.Int64("dumprun", -1, "write the replay file of this run to -outfile without executing it")
 	nomin := flag.Bool("nominimise", false, "write unminimised replay files")
@@ -50,6 +53,14 @@ func WorkerMain(hs map[string]Harness) {
 			panic(p)
 		}
 	}()
+	if *mkrange != "" {
+		rp := &Replay{Property: h.ID(), Seed: *seed, Run: *to - 1, HarnessVersion: HarnessVersion, IsRange: true, RangeFrom: *from, RangeTo: *to, Tier: *tier,
+			Violation: Violation{Signature: *mkrange, Detail: "depends on state carried over from earlier runs in the same process"},
+			Describe:  fmt.Sprintf("runs %d..%d of seed %d, re-executed in order", *from, *to-1, *seed)}
+		nb, _ := json.MarshalIndent(rp, "", " ")
+		os.WriteFile(*outFile, nb, 0o644)
+		os.Exit(0)
+	}
 	if *dumprun >= 0 {
 		DumpRun(h, *seed, *dumprun, *tier, *outFile)
 		os.Exit(0)
@@ -104,7 +115,13 @@ func WorkerMain(hs map[string]Harness) {
 		if RaceCheck != nil {
 			races0 = RaceCheck()
 		}
-		o, v := RunReplay(h, &rp, *trace)
+		var o *simrt.Outcome
+		var v *Violation
+		if rp.IsRange {
+			o, v = RunRange(h, &rp)
+		} else {
+			o, v = RunReplay(h, &rp, *trace)
+		}
 		if v == nil && RaceCheck != nil && RaceCheck() > races0 {
 			v = &Violation{Signature: "race", Detail: "data race reported by the race detector"}
 		}
